@@ -70,7 +70,11 @@ ExplicitPairProgs ==
     << P("ex-rd-R1:0", Obs(XPair("R", 1, 0, FALSE)), <<"explicitpair", "read">>),
        P("ex-wr-R3:2", << Set(XPair("R", 3, 2, FALSE), Src64) >>, <<"explicitpair", "write">>),
        P("ex-rd-C1:0", Obs(XPair("C", 1, 0, FALSE)), <<"explicitpair", "read">>),
-       P("ex-rdnew-R31:30", Obs(XPair("R", 31, 30, TRUE)), <<"explicitpair", "readnew">>) >>
+       P("ex-rdnew-R31:30", Obs(XPair("R", 31, 30, TRUE)), <<"explicitpair", "readnew">>),
+       \* a pair in arithmetic (its 64-bit width must be known to the operators around it)
+       P("ex-arith-R31:30", Obs(Bin("+", XPair("R", 31, 30, FALSE), NumN(1))), <<"explicitpair", "arith">>),
+       P("ex-arith-C1:0", Obs(Bin(">>", XPair("C", 1, 0, FALSE), NumN(33))), <<"explicitpair", "arith">>),
+       P("ex-cmp-R1:0", Obs(Bin("<", XPair("R", 1, 0, FALSE), Rss)), <<"explicitpair", "arith">>) >>
 
 Aliases == <<"PC", "LR", "SA0", "LC0", "SA1", "LC1", "FP", "FRAMEKEY", "SP", "GP", "USR", "UPCYCLE", "PKTCOUNT", "UTIMER", "M0", "CS1", "P3_0", "UGP">>
 AliasProgs ==
@@ -111,6 +115,9 @@ JumpProgs ==
        P("ld-negconst", Obs(CastE(T(TRUE, 32), Load(TRUE, 32, Un("-", NumN(4))))), <<"load", "const">>),
        P("ld-xpair", Obs(CastE(T(TRUE, 32), Load(TRUE, 32, XPair("R", 31, 30, FALSE)))), <<"load", "explicitpair">>),
        P("st-negconst", << Store(FALSE, 32, Rs, Un("-", NumN(4))) >>, <<"store", "const">>),
+       P("ld-addr64", Obs(CastE(T(TRUE, 32), Load(TRUE, 32, Rss))), <<"load", "addr64">>),
+       P("st-addr64", << Store(FALSE, 16, Rss, Rt) >>, <<"store", "addr64">>),
+       P("ld-addr8", << Decl(U8, "a8", Rs) >> \o Obs(CastE(T(FALSE, 32), Load(FALSE, 8, Var("a8")))), <<"load", "addr8">>),
        P("st-addr-fold", << Store(FALSE, 32, Bin("+", NumN(16), NumN(4)), Rt) >>, <<"store", "const">>) >>
 
 Programs == IsaProgs \o ExplicitProgs \o ExplicitPairProgs \o AliasProgs \o ImmProgs \o MemProgs \o JumpProgs
